@@ -1085,8 +1085,10 @@ fn judge_c15(case: &LCase, o: &LObs, v: &mut Vec<Violation>, probes: &mut Vec<(&
                 ),
             ));
         }
+        // (an arbitrarily slow acceptor thread may sit between its flag test and its accept for any
+        // amount of simulated time: the timing clause is only meaningful in fast-CPU mode)
         let mut enter_t: Option<u64> = None;
-        for (_, t, e) in &o.log {
+        for (_, t, e) in o.log.iter().filter(|_| fast) {
             match e {
                 Ev::AcceptEnter => enter_t = Some(*t),
                 Ev::AcceptReturn { c: Some(c) } => {
